@@ -176,7 +176,8 @@ async fn check_obs(i: usize, k: usize, cx: &mut Ctx, s: &Value, paging: bool) ->
             let key = key_from_str(ks);
             let (kt, kg, kd) = parts(&key);
             by_tenant.entry(kt.clone()).or_default();
-            if cache.contains_key(ks) {
+            // (a key that only holds an echoed, temporary value is served by a read but not listed yet)
+            if cache.get(ks).map(|e| e["listed"] != json!(false)).unwrap_or(false) {
                 by_tenant.get_mut(&kt).unwrap().push((kg, kd));
             }
         }
@@ -229,6 +230,11 @@ async fn run_one(i: usize, b: Value) -> anyhow::Result<Value> {
                     cx.addr.send(ConfigCmd::SetTmpValue(key_of(&s["k"]), Arc::new(s["v"].as_str().unwrap().to_string()))).await??;
                 }
                 cx.addr.send(ConfigRaftCmd::ConfigAdd { key: build_key(&key), value: Arc::new(s["v"].as_str().unwrap().to_string()), config_type: if ty.is_empty() { None } else { Some(Arc::new(ty.to_string())) }, desc: None, history_id: s["hid"].as_u64().unwrap(), history_table_id: s["hid"].as_u64(), op_time: 1000 + k as i64, op_user: None }).await??;
+            }
+            "echo" => {
+                // the echo alone: this node routed a publish and serves the value before any committed state arrives
+                let key = key_of(&s["k"]);
+                cx.addr.send(ConfigCmd::SetTmpValue(key, Arc::new(s["v"].as_str().unwrap().to_string()))).await??;
             }
             "remove" => {
                 let key = key_of(&s["k"]);
